@@ -14,15 +14,17 @@ from ..report import Context
 from ..util import is_self_attr, normaliser, parse_expr, path_text, returns_of
 
 LEVEL_TEXT = (
-    "Static analysis of Calibrator.calibrate / check_convergence (no execution): the batch loop's exits are range "
-    "exhaustion and one `break` whose transitive control dependences are exactly {convergence_precision is not None, "
-    "result of check_convergence} - so verbosity, saving folder, batch index cannot influence stopping; the "
-    "convergence test is evaluated in every iteration iff a precision is set, on (losses, counter, precision) after "
-    "both were extended; its body has the normal form round(min(losses[:n]), p) == 0; and every path from a state "
-    "mutation of the batch to the next iteration or the function exit passes through create_checkpoint when a "
-    "folder is set (the stopping batch is saved). Decides these clauses for all inputs/paths; numerical rounding is numpy's."
+    "Static analysis of Calibrator.calibrate / check_convergence (no execution): one iteration of the batch loop is "
+    "evaluated abstractly (sa/pathval.py: three-valued guard evaluation over the CFG, values followed through local flags, "
+    "conditional expressions and inlined helpers, every other test forked) for each row of the truth table (precision "
+    "set, check_convergence true): the loop is left early on every abstract path iff both hold - so verbosity, saving "
+    "folder, batch index cannot influence stopping - and by nothing but that break; the convergence test is evaluated "
+    "iff a precision is set, in every such iteration, on (losses, counter, precision) after both were extended; its body "
+    "has the normal form round(min(losses[:n]), p) == 0; with a folder set every abstract path ends with a "
+    "create_checkpoint after its last state mutation (the stopping batch is saved); the constructor keeps precision 0 "
+    "as 0. Decides these clauses for all inputs/paths; numerical rounding is numpy's."
 )
-TECHNIQUE = "CFG control-dependence closure + must-pass-through path queries + formula normal form"
+TECHNIQUE = "finite abstract evaluation of one loop iteration over a truth table of atoms (path-sensitive, three-valued) + event-order queries on the abstract paths + formula normal form"
 
 
 def run(ctx: Context) -> None:
